@@ -331,7 +331,7 @@ def run(ctx):
         cells = cells + wcells
     ms = dict(presets.fig1()["ms_no_adaptations"])
     ms["end_simulation_stocks_ratio"] = ms.pop("ratio_stocks_untouched")
-    res = ctx.run_impl("c16_impl", {"cells": cells, "procs": 15, "check_shipped_manuscript": ms}, timeout=7000)
+    res = ctx.run_impl("c16_impl", {"cells": cells, "procs": 15, "check_shipped_manuscript": ms}, timeout=20000)
     nfail = 0
     by_preset = {}
     for c in res["cells"]:
